@@ -80,4 +80,12 @@ def rewireIsNoOp (nin : Nat) (w0 : Option Nat) (sameKind : Bool) (rs : List Rang
     | none => false
     | some w => sameKind && (rs.map (·.subwidth)).sum == w && noOpGo rs 0 == some w)
 
+/-! ## `Circuit::removeConstSelectMuxes` (`Circuit.cpp:1137-1162`): which data input a mux with a constant selector is bypassed to -/
+
+/-- `sel` = value of the constant driving the selector, `ndata` = number of data inputs; `none`: the mux stays. A zero-width
+    constant "defaults to zero" (bypass to data input 0); otherwise all bits must be defined and the value must address an input. -/
+def constSelectBypass (sel : BV4) (ndata : Nat) : Option Nat :=
+  if sel.length = 0 then some 0
+  else if sel.allDef && decide (sel.toNat < ndata) then some sel.toNat else none
+
 end Gatery.C01
